@@ -51,34 +51,42 @@ Proof. exact all_dispatched. Qed.
 (* ---------- non-vacuity ---------- *)
 Definition ex_tok (w l p : text) : token := [(k_word, w); (k_lemma, l); (k_pos, p)].
 Definition lf (c : cat) (tok : token) : tree := Leaf c tok (fst leaf_label) (snd leaf_label).
-Definition ex_en : tree :=
-  Bin (Atom [83] (FUn [100;99;108])) [98;97] [60] true
-      (Un (Fun (Atom [83] FNone) [cSL] (Fun (Atom [83] FNone) [cBS] (Atom [78;80] FNone))) [116;114] [60;117;110;62]
-          (lf (Atom [78;80] FNone) (ex_tok [72;101] [104;101] [80;82;80])))
-      (lf (Fun (Atom [83] (FUn [100;99;108])) [cBS] (Atom [78;80] FNone)) [(k_word, [114;117;110;115])]).
-Definition ex_ja : tree :=
-  Bin (Atom [83] FNone) [98;120] [60;66;50] false
-      (Un (Atom [78;80] FNone) [65;68;86;50] [65;68;86;50] (lf (Atom [83] FNone) [(k_word, [29483])]))
-      (Un (Atom [78;80] FNone) [79;84;72;69;82] [79;84;72;69;82] (lf (Atom [83] FNone) [(k_word, [12364])])).
-Example ex_en_ok : batch_ok l_en [[ex_en; ex_en]; [placeholder]; [ex_en]].
-Proof. repeat constructor. Qed.
-Example ex_ja_ok : batch_ok l_ja [[ex_ja]; [placeholder]].
-Proof. repeat constructor. Qed.
+(* a derivation with a binary and a unary node, labelled from the regenerated vocabulary of the language (first binary pair,
+   last unary pair), one full and one bare token *)
+Definition ex_tree (lang : text) : option tree :=
+  match vocab_bin lang, rev (vocab_un lang) with
+  | (bo, bs) :: _, (uo, us) :: _ =>
+      Some (Bin (Atom [83] (FUn [100;99;108])) bo bs true
+                (Un (Fun (Atom [83] FNone) [cSL] (Fun (Atom [83] FNone) [cBS] (Atom [78;80] FNone))) uo us
+                    (lf (Atom [78;80] FNone) (ex_tok [72;101] [104;101] [80;82;80])))
+                (lf (Fun (Atom [83] (FUn [100;99;108])) [cBS] (Atom [78;80] FNone)) [(k_word, [114;117;110;115])]))
+  | _, _ => None
+  end.
+Definition ex_batch (lang : text) : list sentence :=
+  match ex_tree lang with Some t => [[t; t]; [placeholder]; [t]] | None => [] end.
+Example ex_domain_inhabited :
+  forallb (fun lang => match ex_tree lang with Some t => tree_okb lang t | None => false end) [l_en; l_ja] = true.
+Proof. vm_compute. reflexivity. Qed.
+Example ex_batch_ok : batch_ok l_en (ex_batch l_en) /\ batch_ok l_ja (ex_batch l_ja).
+Proof. split; repeat constructor. Qed.
 Example ex_offered : forallb (fun lang => negb (Nat.ltb (length (offered_for lang)) 1)) [l_en; l_ja] = true.
 Proof. vm_compute. reflexivity. Qed.
-Example ex_all_render : forallb (fun f => is_ok (fst (render f {| trees := [[ex_en; ex_en]; [placeholder]; [ex_en]]; oplog := [] |}))) (offered_for l_en)
-                        && forallb (fun f => is_ok (fst (render f {| trees := [[ex_ja]; [placeholder]]; oplog := [] |}))) (offered_for l_ja) = true.
+Example ex_all_render :
+  forallb (fun lang => negb (Nat.ltb (length (ex_batch lang)) 3)
+                       && forallb (fun f => is_ok (fst (render f {| trees := ex_batch lang; oplog := [] |}))) (offered_for lang)) [l_en; l_ja] = true.
 Proof. vm_compute. reflexivity. Qed.
-(* the hypotheses matter: a label outside the grammar ('unk', what the readers put on unknown rules) stops prolog, a token
-   without 'word' stops auto but not json *)
+(* the hypotheses matter (fixed format descriptions, independent of the generated tables): a label outside the table stops a
+   printer that looks labels up, a token without 'word' stops a printer that needs it but not one that does not, and only
+   the sentence concerned is to blame *)
+Definition prolog_like : spec := {| f_lang := l_en; f_name := []; f_strict := [k_word]; f_muts := []; f_labels := [(s_binary, s_op_string, [[102;97]; [98;97]])] |}.
+Definition auto_like : spec := {| f_lang := l_en; f_name := []; f_strict := [k_word]; f_muts := []; f_labels := [] |}.
+Definition json_like : spec := {| f_lang := l_en; f_name := []; f_strict := []; f_muts := []; f_labels := [] |}.
+Definition ex_good : tree := Bin (Atom [83] FNone) [102;97] [62] true (lf (Atom [78;80] FNone) [(k_word, [72;101])]) (lf (Atom [78;80] FNone) [(k_word, [72;101])]).
 Definition ex_unk : tree := Bin (Atom [83] FNone) [117;110;107] [60;117;110;107;62] true (lf (Atom [78;80] FNone) [(k_word, [72;101])]) (lf (Atom [78;80] FNone) [(k_word, [72;101])]).
 Definition ex_noword : tree := lf (Atom [78;80] FNone) [(k_lemma, [72;101])].
 Example ex_hypotheses_matter :
-  match find_spec l_en [112;114;111;108;111;103], find_spec l_en [97;117;116;111], find_spec l_en [106;115;111;110] with
-  | Some fp, Some fa, Some fj =>
-      fst (render fp (single [ex_unk])) = LabelErr [117;110;107] /\ fst (render fa (single [ex_unk])) = Ok
-      /\ fst (render fa (single [ex_noword])) = KeyErr k_word /\ fst (render fj (single [ex_noword])) = Ok
-      /\ fst (render fa {| trees := [[ex_en]; [ex_noword]; [ex_en]]; oplog := [] |}) = KeyErr k_word
-  | _, _, _ => False
-  end.
+  fst (render prolog_like (single [ex_unk])) = LabelErr [117;110;107] /\ fst (render auto_like (single [ex_unk])) = Ok
+  /\ fst (render prolog_like (single [ex_good])) = Ok
+  /\ fst (render auto_like (single [ex_noword])) = KeyErr k_word /\ fst (render json_like (single [ex_noword])) = Ok
+  /\ fst (render auto_like {| trees := [[ex_good]; [ex_noword]; [ex_good]]; oplog := [] |}) = KeyErr k_word.
 Proof. vm_compute. repeat split. Qed.
